@@ -72,7 +72,7 @@ def canon_name(name):
     return name
 
 
-def build_template(c, regs, hsm, log, use_factory=False, name_handled=False, fns=None, bound=False, lookup=False):
+def build_template(c, regs, hsm, log, use_factory=False, name_handled=False, fns=None, bound=False, lookup=False, wrapped=False):
     """state_method_template + register_signal_callback + register_parent on `hsm`
     (fns: template state functions already in use by another chart, to be shared)"""
     cbs = {}
@@ -131,6 +131,21 @@ def build_template(c, regs, hsm, log, use_factory=False, name_handled=False, fns
     for i in range(1, c.n + 1):
         for kind, cbk, tgt in regs[i]:
             cb = mk_cb(i, kind, cbk, tgt)
+            if wrapped:
+                # a callback that is callable but neither a plain function nor a bound method: a functools.partial, an object with __call__
+                import functools
+                inner_cb = cb
+                if (i + len(kind) + tgt) % 2:
+                    cb = functools.partial(inner_cb)
+                else:
+                    class CallableCallback:
+                        def __init__(self, f):
+                            self.f = f
+
+                        def __call__(self, chart, e):
+                            return self.f(chart, e)
+                    cb = CallableCallback(inner_cb)
+                cb.__name__ = inner_cb.__name__
             cbs[cb.__name__ + "@%d" % i] = cb
             hsm.register_signal_callback(fns[i], sig_of(kind), cb)
         if not regs[i]:
@@ -218,7 +233,7 @@ def run_build(c, regs, style, start, evs, name_handled=False, rereg=None):
             except (mhsm.HsmTopologyException, Diverged):
                 pass
         tfns, cbs = build_template(c, regs, hsm, log, name_handled=name_handled, fns=shared, bound=(style == "template-bound"),
-                                   lookup=(style == "lookup"))
+                                   lookup=(style == "lookup"), wrapped=(style == "template-wrapped"))
         if style == "template-other-design":
             # a different chart whose states happen to have the same names is assembled afterwards on another object
             r3 = random.Random(1000 * start + len(evs) + c.n)
@@ -226,7 +241,7 @@ def run_build(c, regs, style, start, evs, name_handled=False, rereg=None):
             other2 = charts.probed_class(mhsm.HsmWithQueues)()
             build_template(c2, registrations(c2, order_seed=r3.randrange(1 << 30)), other2, [], name_handled=False)
         texts = {i: hsm.to_code(tfns[i]) for i in tfns}
-        if style in ("template", "template-shared", "template-bound", "template-other-design", "template-shared-other-tree", "lookup"):
+        if style in ("template", "template-shared", "template-bound", "template-wrapped", "template-other-design", "template-shared-other-tree", "lookup"):
             fns = tfns
         else:
             ns = {"spy_on": mhsm.spy_on, "return_status": return_status, "signals": signals}
@@ -418,6 +433,12 @@ def explore(run, n_random, none_rate=0.0):
             run.violate("C17/other-chart-with-same-state-names", "after another template chart with states of the same names was assembled on another "
                         "object, this chart ran %s and ended in %s (%s); alone %s, %s (%s)" % (oth[0][:30], oth[1], oth[2], tmpl[0][:30], tmpl[1], tmpl[2]), cj)
         if not name_handled:
+            wr = run_build(c, regs, "template-wrapped", start, evs, False)
+            run.traces_validated += 1
+            run.count("callbacks registered as functools.partial objects / objects with __call__")
+            if wr[0] != tmpl[0] or wr[1] != tmpl[1] or wr[2] != tmpl[2]:
+                run.violate("C17/callable-object-callbacks", "callbacks registered as functools.partial objects and as instances of a class with __call__ ran %s "
+                            "and ended in %s (%s); the same callbacks as plain functions %s, %s (%s)" % (wr[0][:30], wr[1], wr[2], tmpl[0][:30], tmpl[1], tmpl[2]), cj)
             bnd = run_build(c, regs, "template-bound", start, evs, False)
             run.traces_validated += 1
             if bnd[0] != tmpl[0] or bnd[1] != tmpl[1] or bnd[2] != tmpl[2]:
